@@ -215,7 +215,7 @@ def verdict(prop, cfg, tier, seed, pr, results, runner, drv, t0, vp):
         reported.add(hid)
         hist = history_from_ops(os.path.join(d, "ops"), hid) or []
         small = vp.ddmin(hist, runner, prop) if hist else hist
-        again = vp.viols_of(small, runner, prop, "confirm") if small else [v]
+        again = vp.viols_of(small, runner, prop, prop + "-confirm") if small else [v]
         path = os.path.join(replay_dir, f"{prop}-{hid}.json")
         json.dump(dict(property=prop, kind="impl-violation", target=cfg["target"], ops=small,
                        oracle=(again or [v])[0], seed=seed), open(path, "w"), indent=1)
